@@ -17,7 +17,7 @@ import (
 
 // C10 - field expressions select exactly the documented fields.
 
-var c10Alpha = []rune("abé漢  \t\t,,;:x1" + "\u00e0\u00c5\u0420\u00a0\u0800\r\v")  // incl. characters whose UTF-8 encoding holds the bytes 0x85 / 0xa0, NBSP and control blanks: only space and tab separate AWK fields
+var c10Alpha = []rune("abé漢  \t\t,,;:x1" + "\u00e0\u00c5\u0420\u00a0\u0800\r\v") // incl. characters whose UTF-8 encoding holds the bytes 0x85 / 0xa0, NBSP and control blanks: only space and tab separate AWK fields
 
 func c10Line(t *rapid.T) string {
 	return string(rapid.SliceOfN(rapid.SampledFrom(c10Alpha), 0, 16).Draw(t, "line"))
